@@ -86,18 +86,18 @@ PLAN = {
                  "::rope, ::buffer and ::size return exactly the concatenation of the children's text() / raw() in order, for every number of children: the single-child delegation arm, the `map(..).collect()` String path, the Rope::new + append loop "
                  "(Rope contracts as proved by rope_core), the `collect::<Vec<_>>().concat()` path and the `sum()` path all agree - so rope() renders to source(), size() == buffer().len(), and when the children's raw() == text() then buffer() is the bytes of source(). "
                  "ReplaceSource::rope renders to ReplaceSource::source, size() is its length and buffer() holds exactly its bytes (unit replace_splice, as for C05; buffer since session 4); Rope::to_string / to_bytes render exactly the denoted text (unit rope_core). "
-                 "Base cases: the four views of all five leaf types - OriginalSource, SourceMapSource, RawStringSource, RawBufferSource and RawSource (string and binary arm) - cut verbatim out of their `impl Source` blocks and re-assembled as impls of the reduced trait, are checked by Verus against the trait contract itself (text() = raw() = the held string's bytes; for the binary leaves (RawBufferSource, RawSource::Buffer) raw() = the exact bytes given and text() = the lazily cached lossy decoding, OnceLock::get_or_init entering by contract), so for these leaves the contract is proved, not assumed. "
+                 "Base cases: the four views of all five leaf types - OriginalSource, SourceMapSource, RawStringSource, RawBufferSource and RawSource (string and binary arm) and the forwarding impl `Source for BoxSource` (= Arc<dyn Source>) - cut verbatim out of their `impl Source` blocks and re-assembled as impls of the reduced trait, are checked by Verus against the trait contract itself (text() = raw() = the held string's bytes; for the binary leaves (RawBufferSource, RawSource::Buffer) raw() = the exact bytes given and text() = the lazily cached lossy decoding, OnceLock::get_or_init entering by contract), so for these leaves the contract is proved, not assumed. "
                  "Not decided: to_writer (dyn Write; searched by the twin, including writers that fail after k bytes), that the cache of a binary leaf, once filled, holds the lossy decoding of its bytes (it is only written by the two identical initialisers; `lossy` itself is an uninterpreted function here), "
                  "CachedSource, ConcatSource::new / add (flat_map + downcast_ref flattening).",
         "note": "Partial: the induction step for ConcatSource and ReplaceSource, not the base cases. Trusted: Verus/Z3/vstd, rules D1 D2 D5 D6 F1 MC1 MC2 MS1, the Cow deref axioms; Arc<dyn Source> method calls dispatch to implementations that satisfy the trait contract (assumed for the leaves).",
         "trusted_base": TB_VERUS + [
             "unit concat_views: rule D5 (trait Source reduced to source / rope / buffer / size with spec views text() and raw(); its contracts are the induction hypothesis), rule D6 (Rope as an opaque type with the contracts of new / append that unit rope_core proves), "
-            "rule D6f (`Rope::from(&self.field)` on a &String / &Cow<str> -> the named constructor of the opaque Rope type, contract = the single-piece rope over that string); assume_specification String::as_bytes / String::len (bytes = UTF-8 encoding of the chars), OnceLock::get_or_init (returns the held value, or the initialiser's result when empty; uninterpreted cell view), rule W2 (the initialiser closure typed, with `String::from_utf8_lossy(v).to_string()` named lossy_string and `lossy` uninterpreted); rules MC1 (`X.iter().map(|c| c.source()).collect()` into a String -> push_str loop), MC2 (`X.iter().map(|c| c.buffer()).collect::<Vec<_>>().concat()` -> extend_from_slice loop), MS1 (`X.iter().map(|c| c.size()).sum()` -> `+=` loop), F1",
+            "rule D6f (`Rope::from(&self.field)` on a &String / &Cow<str> -> the named constructor of the opaque Rope type, contract = the single-piece rope over that string); assume_specification <Arc<T> as AsRef<T>>::as_ref (a reference to the value behind the Arc), String::as_bytes / String::len (bytes = UTF-8 encoding of the chars), OnceLock::get_or_init (returns the held value, or the initialiser's result when empty; uninterpreted cell view), rule W2 (the initialiser closure typed, with `String::from_utf8_lossy(v).to_string()` named lossy_string and `lossy` uninterpreted); rules MC1 (`X.iter().map(|c| c.source()).collect()` into a String -> push_str loop), MC2 (`X.iter().map(|c| c.buffer()).collect::<Vec<_>>().concat()` -> extend_from_slice loop), MS1 (`X.iter().map(|c| c.size()).sum()` -> `+=` loop), F1",
             "assume_specification <Cow<B> as Deref>::deref (uninterpreted target) with two axioms: the target of a Cow<str> / Cow<[u8]> is the borrowed value or the owned value's content (definition of Cow::deref)",
         ] + TB_ROPE,
-        "assumptions": ["every child satisfies the trait contract (C07 for the child): proved here for ConcatSource, ReplaceSource, OriginalSource, SourceMapSource, RawStringSource, RawBufferSource and RawSource children, assumed for CachedSource and for the one-line forwarding impls behind Arc<dyn Source>", "total text / buffer length fits usize (requires of rope() and size())",
+        "assumptions": ["every child satisfies the trait contract (C07 for the child): proved here for ConcatSource, ReplaceSource, OriginalSource, SourceMapSource, RawStringSource, RawBufferSource and RawSource children, and the forwarding impl `Source for BoxSource` (what `children[i].source()` resolves to); assumed for CachedSource", "total text / buffer length fits usize (requires of rope() and size())",
                         "ReplaceSource: the domain preconditions of C05 (positions on char boundaries or beyond the end, text < 4 GiB)"],
-        "not_covered": ["to_writer (dyn Write): only searched by the twin, with failing writers", "CachedSource (DashMap / OnceLock caches)", "the forwarding impls of Source for Box / Arc / &T (source.rs)", "ConcatSource::new / add (flattening of nested ConcatSources)", "ReplaceSource::to_writer"],
+        "not_covered": ["to_writer (dyn Write): only searched by the twin, with failing writers", "CachedSource (DashMap / OnceLock caches)", "ConcatSource::new / add (flattening of nested ConcatSources)", "ReplaceSource::to_writer"],
         "design_ref": "DESIGN.md §4/C07",
     },
     "C11": {
